@@ -181,7 +181,15 @@ func c13Exec(s map[string]string) map[string]any {
 	// ---- write
 	rl := map[string]int64{"zero": 0, "minus1": psize - 1, "exact": psize, "plus1": psize + 1}[s["rlen"]]
 	ch := map[string]int{"whole": 0, "one": 1, "c513": 513, "pssp1": int(pss) + 1, "eofdata": 512}[s["chunk"]]
-	rd := &chunkReader{tag: 7, n: rl, chunk: ch, data: s["data"], pss: pss, eofWithData: s["chunk"] == "eofdata"}
+	var rd io.Reader = &chunkReader{tag: 7, n: rl, chunk: ch, data: s["data"], pss: pss, eofWithData: s["chunk"] == "eofdata"}
+	if s["chunk"] == "seeked" {
+		// a seekable source that was partly consumed already (a header in front of the payload): what counts
+		// is what the reader still supplies from its current position
+		const hdr = 4096
+		br := bytes.NewReader(append(bytes.Repeat([]byte{0xA5}, hdr), c13Content(s["data"], 7, rl, pss)...))
+		br.Seek(hdr, io.SeekStart)
+		rd = br
+	}
 	p1 := memdev.Range{Off: start * lss, Len: psize}
 	d.ResetLog()
 	d.FailOutside = []memdev.Range{p1}
@@ -283,7 +291,7 @@ func c13Events(c *core.Ctx) (tuples []map[string]string, events []map[string]any
 }
 
 func C13(c *core.Ctx) {
-	c.Rule = "case = one geometry tuple of PartIO.tla (GPT/MBR x start class incl. start*sector >= 2^32 and start = 2^32-1 sectors x size x logical 512/4096 x physical 512/4096 (pss != lss) x reader length {0,size-1,size,size+1} x chunking {whole,1 byte,513,pss+1} x content {non-zero pattern, all zeroes, pattern with zeroed physical sectors} streamed onto non-zero previous content x table object re-applied after partition 1 was replaced in it), all tuples within MaxDev deviations of the base tuple (quick 3, thorough 9 = full product), enumerated by TLC; every tuple is non-trivial (distinct key = tuple); plus the composition behaviours of Disk.tla (raw clause of Disk_Trace: WritePartitionContents / ReadPartitionContents / CopyPartitionRaw between three slots of one GPT or MBR disk, interleaved with table rewrites and filesystem traffic)"
+	c.Rule = "case = one geometry tuple of PartIO.tla (GPT/MBR x start class incl. start*sector >= 2^32 and start = 2^32-1 sectors x size x logical 512/4096 x physical 512/4096 (pss != lss) x reader length {0,size-1,size,size+1} x chunking {whole,1 byte,513,pss+1, last piece together with io.EOF, seekable source already consumed up to a header} x content {non-zero pattern, all zeroes, pattern with zeroed physical sectors} streamed onto non-zero previous content x table object re-applied after partition 1 was replaced in it), all tuples within MaxDev deviations of the base tuple (quick 3, thorough 9 = full product), enumerated by TLC; every tuple is non-trivial (distinct key = tuple); plus the composition behaviours of Disk.tla (raw clause of Disk_Trace: WritePartitionContents / ReadPartitionContents / CopyPartitionRaw between three slots of one GPT or MBR disk, interleaved with table rewrites and filesystem traffic)"
 	c.Assumptions = []string{"sparse pattern-filled memdev; byte counts are decimal strings for TLC", "CopyPartitionRaw is exercised with a target at least as large as the source"}
 	tuples, events, ok := c13Events(c)
 	if !ok {
